@@ -16,7 +16,7 @@
      PI                    the invariant; Wk s = "a wake is in the pipeline" *)
 From Coq Require Import List NArith Arith Bool.
 From SNT Require Import Base.Outcome IO.IOQueue IO.IOQueueProofs IO.TermIO IO.PollLoop
-  IO.PollLoopProofs.
+  IO.PollLoopProofs IO.PollLoopClosing.
 Import ListNotations.
 
 Section Statements.
@@ -50,8 +50,9 @@ Section Statements.
   (* a wake request puts the wake in the pipeline, also when the socket is full (EAGAIN is
      swallowed, the socket is not empty then).  By definition of `arrive`: the model assumes the
      one-byte non-blocking write succeeds or fails with EAGAIN; the code also swallows EINTR,
-     which a non-blocking socket write does not produce (design/C17.md) *)
-  Theorem C17_wake_request_partial : forall s : pstate, Wk (arrive s MWake).
+     which a non-blocking socket write does not produce (design/C17.md).  A lemma, not counted
+     among the theorems: it holds by the definition of `arrive`. *)
+  Lemma C17_wake_request_partial : forall s : pstate, Wk (arrive s MWake).
   Proof. intro s. left. cbn. unfold pipe_cap. apply Nat.lt_0_succ. Qed.
 
   (* an iteration of the loop that gets through select with a byte in the socket queues Wake *)
@@ -60,18 +61,31 @@ Section Statements.
     In EvWake (events s').
   Proof. exact round_queues_wake. Qed.
 
+  (* ... and the same for SIGWINCH: an iteration that gets through select with the flag set and
+     the signal pipe readable, and that completes (the tty is not gone, no termination signal
+     came with it - those cases end the poll with an error, C17_quit_partial), has queued a
+     Resize event *)
+  Theorem C17_resize_progress_partial : forall (s : pstate) r nodelay s' w,
+    winch (arrive_all s (r_before r)) = true -> sigpipe (arrive_all s (r_before r)) = true ->
+    round_body s r nodelay = inr (s', w) ->
+    In EvResize (events s').
+  Proof. exact round_queues_resize. Qed.
+
   (* "the current poll returns": the loop ends with an event as soon as one is queued and
      nothing is left to write (every event; output is flushed first: poll's contract), and for a
      wake request also when the tty does not take more - in the very iteration in which the wake
      byte is read while the tty is stalled.  Only wake requests cut the flush short: a key or a
      resize arriving during a large frame is returned after the queue has drained, or at the
      timeout *)
-  Theorem C17_returns_when_idle_partial : forall finite first (s : pstate) sched,
+  (* (the next two are readings of the loop test of the model, lemmas not counted among the
+     theorems; the bounds that need an argument are C17_returns_within_partial and
+     C17_wake_returns_within_partial) *)
+  Lemma C17_returns_when_idle_partial : forall finite first (s : pstate) sched,
     queue_empty s = true -> events s <> [] ->
     exists e, fst (fst (poll_loop finite first s sched)) = PRet (Some e).
   Proof. exact returns_when_idle. Qed.
 
-  Theorem C17_wake_returns_now_partial : forall finite first (s : pstate) r rest s',
+  Lemma C17_wake_returns_now_partial : forall finite first (s : pstate) r rest s',
     (queue_empty s && negb (events_empty s)) = false ->
     (finite && r_expired r && negb first) = false -> r_eintr r = false ->
     0 < pipe (arrive_all s (r_before r)) ->
@@ -146,6 +160,22 @@ Section Statements.
     dispose is_da closing fuel s (r :: rest) = Some s' ->
     tty (io s') = tty (io s) ++ front_slice (tq (io s)) ++ closing.
   Proof. exact dispose_delivers_when_tty_accepts. Qed.
+
+  (* ... and the same when the kernel takes the output in as many short writes as it likes: a
+     prefix `goods` of the schedule of dispose's first poll in which every iteration finds the tty
+     writable and write(2) accepts at least one byte (no hang-up, write error, EINTR, expiry of the
+     one second timeout; no wake request in the pipeline or arriving: a Wake event would make the
+     poll return early and dispose poll again, counted against its deadline).  With
+     |slice in flight ++ closing| + 2 such iterations everything is delivered, whatever follows. *)
+  Theorem C17_closing_delivered_short_writes_partial :
+    forall (is_da : T -> bool) (closing : list A) fuel (s : pstate) goods rest s',
+    0 < fuel -> QI s -> (N.of_nat (total_len (chunks (tq (io s))) + length closing) <= usize_max)%N ->
+    hup s = false -> pipe s = 0 -> wake_queued s = false ->
+    Forall good goods ->
+    length (front_slice (tq (io s)) ++ closing) + 2 <= length goods ->
+    dispose is_da closing fuel s (goods ++ rest) = Some s' ->
+    tty (io s') = tty (io s) ++ front_slice (tq (io s)) ++ closing.
+  Proof. exact dispose_delivers_under_short_writes. Qed.
 End Statements.
 
 (* ---- boundaries, exhibited on the model *)
@@ -193,6 +223,29 @@ Example C17_quit_pending_at_drop_example :
   | None => False
   end.
 Proof. vm_compute. repeat split; reflexivity. Qed.
+
+(* the closing sequence in short writes: three bytes of a frame in flight (one already sent), a
+   second frame behind it (dropped), a two byte closing sequence; the kernel takes one byte per
+   iteration, a key arrives meanwhile, then the timeout expires: all four bytes arrive in order *)
+Example C17_closing_in_short_writes_example :
+  let one : round_env N := mkR false [] false (Some 1%N) false [] [] [] 1024 in
+  let key : round_env N := mkR false [MInput [97%N]] false (Some 1%N) false [] [] [] 1024 in
+  let expired : round_env N := mkR true [] false None false [] [] [] 1024 in
+  let s0 : pstate N N := opened 7 8 in
+  let q := write (flush (write (tq (io s0)) [1;2;3]%N)) [4;5]%N in
+  let s1 := upd_io s0 (mkT q [] 0) in
+  let '(_, s2, _) := poll true s1 [one; expired] in
+  let goods := [one; key; one; one; one; one] in
+  Forall good goods
+  /\ length (front_slice (tq (io s2)) ++ [27; 99]%N) + 2 <= length goods
+  /\ match dispose (fun t => N.eqb t 9) [27; 99]%N 5 s2 (goods ++ [expired; expired]) with
+     | Some s' => cur s' = 7%N /\ tty (io s') = [1; 2; 3; 27; 99]%N /\ queue_empty s' = true
+     | None => False
+     end.
+Proof.
+  split; [repeat constructor; try (eexists; split; [reflexivity|reflexivity])|].
+  vm_compute. repeat split; try reflexivity; repeat constructor.
+Qed.
 
 (* SIGWINCH flagged together with a termination signal: the Resize event is queued before the
    quit error is returned, and the next poll returns it *)
